@@ -68,3 +68,31 @@ Definition prefix_of (b : base) : str :=
   match b with B2 => [48;98] | B8 => [48] | B10 => [] | B16 => [48;120] end.
 Definition spell (b : base) (ds : list N) (sfx : str) : str :=
   prefix_of b ++ map digit_to_char ds ++ sfx.
+
+(* ---- character literals (ISO C 6.4.4.4): simple escapes and source characters; the
+   implementation-defined choices are the ones gcc and clang make on hosts with a signed
+   plain char: a one-character narrow literal has the value of the byte as `char`, a
+   multi-character literal packs its bytes base 256 into an `int` (low 32 bits). *)
+Inductive simple_esc : N -> N -> Prop :=
+| SE_sq : simple_esc 39 39 | SE_dq : simple_esc 34 34 | SE_qm : simple_esc 63 63 | SE_bs : simple_esc 92 92
+| SE_a : simple_esc 97 7 | SE_b : simple_esc 98 8 | SE_f : simple_esc 102 12 | SE_n : simple_esc 110 10
+| SE_r : simple_esc 114 13 | SE_t : simple_esc 116 9 | SE_v : simple_esc 118 11
+| SE_e : simple_esc 101 27.                                   (* GNU extension *)
+
+Inductive c_char : str -> N -> Prop :=
+| CC_plain c : c <> 39 -> c <> 92 -> c <> 10 -> c < 256 -> c_char [c] c
+| CC_esc e v : simple_esc e v -> c_char [92; e] v.
+
+Inductive c_chars : str -> list N -> Prop :=
+| CCs_nil : c_chars [] []
+| CCs_cons sp v body vs : c_char sp v -> c_chars body vs -> c_chars (sp ++ body) (v :: vs).
+
+Definition sext_spec (bits : N) (v : N) : Z :=
+  let m := v mod 2 ^ bits in
+  if m <? 2 ^ (bits - 1) then Z.of_N m else (Z.of_N m - Z.of_N (2 ^ bits))%Z.
+
+Definition narrow_char_value (vs : list N) : Z :=
+  match vs with
+  | [v] => sext_spec 8 v
+  | _ => sext_spec 32 (value_of_digits 256 vs)
+  end.
